@@ -83,8 +83,16 @@ struct Exec {
     steps: u64,
 }
 
-fn exec(seq: &[Op], dense: bool, horizon_ms: u64, trace: bool) -> Exec {
-    let mut w = World::one(lay_v4());
+/// `fam`: 0 = one IPv4 interface, 1 = one IPv6-only interface (service and peer on IPv6),
+/// 2 = one interface with both (service with an address of each family).
+fn exec(seq: &[Op], dense: bool, horizon_ms: u64, trace: bool, fam: u8) -> Exec {
+    let mut w = World::one(match fam {
+        0 => lay_v4(),
+        1 => lay_v6(),
+        _ => lay_dual(),
+    });
+    let peer0: &str = if fam == 1 { PEER0_V6 } else { PEER0 };
+    let my_ips = ["10.0.0.5", "fd00::5", "10.0.0.5,fd00::5"][fam as usize];
     w.trace = trace;
     let mon = w.ds[0].h.monitor().unwrap();
     w.add_mon(0, mon);
@@ -101,7 +109,7 @@ fn exec(seq: &[Op], dense: bool, horizon_ms: u64, trace: bool) -> Exec {
     for op in seq {
         match op {
             Op::Register => {
-                w.ds[0].h.register(svc("_t._tcp.local.", "mine", "myhost.local.", "10.0.0.5", 80, &[])).unwrap();
+                w.ds[0].h.register(svc("_t._tcp.local.", "mine", "myhost.local.", my_ips, 80, &[])).unwrap();
                 w.poke(0);
             }
             Op::PeerProbeWins | Op::PeerProbeLoses => {
@@ -113,7 +121,7 @@ fn exec(seq: &[Op], dense: bool, horizon_ms: u64, trace: bool) -> Exec {
                 let mut r = a(&n("myhost.local"), ip, 120);
                 r.flush = false;
                 m.authorities.push(r);
-                w.deliver(0, IF0, PEER0, build(&m));
+                w.deliver(0, IF0, peer0, build(&m));
             }
             Op::PeerProbeWinsBoth => {
                 // a peer probing for both of our names at once, with later data for both
@@ -128,12 +136,12 @@ fn exec(seq: &[Op], dense: bool, horizon_ms: u64, trace: bool) -> Exec {
                 let mut r = txt(&n("mine._t._tcp.local"), &[1, b'z'], 4500);
                 r.flush = false;
                 m.authorities.push(r);
-                w.deliver(0, IF0, PEER0, build(&m));
+                w.deliver(0, IF0, peer0, build(&m));
             }
             Op::ConflictResponse => {
                 adv(&mut w, 100);
                 let m = response(vec![a(&n("myhost.local"), [10, 0, 0, 77], 120)]);
-                w.deliver(0, IF0, PEER0, build(&m));
+                w.deliver(0, IF0, peer0, build(&m));
             }
             Op::Browse => {
                 let rx = w.ds[0].h.browse("_t._tcp.local.").unwrap();
@@ -162,13 +170,13 @@ fn exec(seq: &[Op], dense: bool, horizon_ms: u64, trace: bool) -> Exec {
                 w.poke(0);
             }
             Op::Announce2 => {
-                w.deliver(0, IF0, PEER0, build(&response(i.all(2))));
+                w.deliver(0, IF0, peer0, build(&response(i.all(2))));
             }
             Op::Announce10 => {
-                w.deliver(0, IF0, PEER0, build(&response(i.all(10))));
+                w.deliver(0, IF0, peer0, build(&response(i.all(10))));
             }
             Op::Goodbye => {
-                w.deliver(0, IF0, PEER0, build(&response(i.all(0))));
+                w.deliver(0, IF0, peer0, build(&response(i.all(0))));
             }
             Op::IpCheck0 | Op::IpCheck1 | Op::IpCheckDefault | Op::IpCheckHuge => {
                 let v = match op {
@@ -201,19 +209,19 @@ fn exec(seq: &[Op], dense: bool, horizon_ms: u64, trace: bool) -> Exec {
                 w.poke(0);
             }
             Op::HostTwoAddrs => {
-                w.deliver(0, IF0, PEER0, build(&response(vec![a(&n("h.local"), [10, 0, 0, 9], 120), a(&n("h.local"), [10, 0, 0, 10], 120)])));
+                w.deliver(0, IF0, peer0, build(&response(vec![a(&n("h.local"), [10, 0, 0, 9], 120), a(&n("h.local"), [10, 0, 0, 10], 120)])));
             }
             Op::HostOnlyX => {
-                w.deliver(0, IF0, PEER0, build(&response(vec![a(&n("h.local"), [10, 0, 0, 9], 120)])));
+                w.deliver(0, IF0, peer0, build(&response(vec![a(&n("h.local"), [10, 0, 0, 9], 120)])));
             }
             Op::HostOnlyY => {
-                w.deliver(0, IF0, PEER0, build(&response(vec![a(&n("h.local"), [10, 0, 0, 10], 120)])));
+                w.deliver(0, IF0, peer0, build(&response(vec![a(&n("h.local"), [10, 0, 0, 10], 120)])));
             }
             Op::SrvOtherPort => {
-                w.deliver(0, IF0, PEER0, build(&response(vec![srv(&i.inst, &i.host, 4242, 120)])));
+                w.deliver(0, IF0, peer0, build(&response(vec![srv(&i.inst, &i.host, 4242, 120)])));
             }
             Op::TxtOther => {
-                w.deliver(0, IF0, PEER0, build(&response(vec![txt(&i.inst, &[3, b'q', b'=', b'1'], 4500)])));
+                w.deliver(0, IF0, peer0, build(&response(vec![txt(&i.inst, &[3, b'q', b'=', b'1'], 4500)])));
             }
         }
     }
@@ -296,9 +304,13 @@ fn classify(seq: &[Op], a_line: Option<&String>, b_line: Option<&String>) -> Str
 }
 
 fn run_case(seq: &[Op], horizon: u64, trace: bool) -> CaseResult {
+    run_case_fam(seq, horizon, trace, 0)
+}
+
+fn run_case_fam(seq: &[Op], horizon: u64, trace: bool, fam: u8) -> CaseResult {
     let mut res = CaseResult::default();
-    let a = exec(seq, false, horizon, trace);
-    let b = exec(seq, true, horizon, false);
+    let a = exec(seq, false, horizon, trace, fam);
+    let b = exec(seq, true, horizon, false, fam);
     res.transitions = a.steps + b.steps;
     res.states = a.states.clone();
     res.outcome = fnv128(a.lines.join("\n").as_bytes());
@@ -356,6 +368,28 @@ pub fn check(tier: &str) -> i32 {
         run: Box::new(move |i, tr| run_case(&seq_of(i, depth), horizon, tr)),
     };
     rep.run_part(&part, Duration::from_secs(if thorough { 7200 } else { 50 }));
+    // an announced service on each address family: IPv4 only, IPv6 only, both on one interface
+    let fdepth6 = if thorough { 2usize } else { 1 };
+    let mut n6 = 0u64;
+    let mut b = 1u64;
+    for _ in 0..=fdepth6 {
+        n6 += b;
+        b *= OPS.len() as u64;
+    }
+    let fseq6 = move |i: u64| -> Vec<Op> {
+        let mut v = vec![Op::Register, Op::Idle1s, Op::Idle1s];
+        v.extend(seq_of(i, fdepth6));
+        v
+    };
+    let fams = FnPart {
+        name: "announced-service-on-each-address-family".into(),
+        rule: format!("(one IPv4 interface | an IPv6-only interface with the service and the peer on IPv6 | one interface with both families and a service with an address of each) x a service registered and announced x every sequence of <= {fdepth6} of the same events, followed by {} s of silence; same comparison", horizon / 1000),
+        n: 3 * n6,
+        describe: Box::new(move |i| format!("{} {:?}", ["ipv4-only", "ipv6-only", "dual-stack"][(i % 3) as usize], fseq6(i / 3))),
+        run: Box::new(move |i, tr| run_case_fam(&fseq6(i / 3), horizon, tr, (i % 3) as u8)),
+    };
+    rep.run_part(&fams, Duration::from_secs(if thorough { 3600 } else { 50 }));
+    rep.require("announced-service-on-each-address-family", "log_entries_compared");
     // longer horizon for single events (record TTLs, 75-minute defaults)
     let long = FnPart {
         name: "long-horizon-singles".into(),
